@@ -43,6 +43,10 @@ pub struct CaseRecord {
     pub log_hash: u64,
     /// Some(key) when the case is non-trivial by the scenario's rule; key identifies distinct cases.
     pub nontrivial_key: Option<u64>,
+    /// Additional non-trivial keys when one case stands for many executions (e.g. crash points of one base).
+    pub nontrivial_keys: Vec<u64>,
+    /// Executions this case stands for (0 = one).
+    pub evaluations: u64,
     pub issues: Vec<IssueRec>,
     pub counters: BTreeMap<String, u64>,
     pub discarded: Option<String>,
@@ -63,6 +67,8 @@ impl CaseRecord {
         json!({
             "i": index, "seed": seed, "log": format!("{:016x}", self.log_hash),
             "key": self.nontrivial_key.map(|k| format!("{k:016x}")),
+            "keys": self.nontrivial_keys.iter().map(|k| format!("{k:016x}")).collect::<Vec<_>>(),
+            "evals": self.evaluations.max(1),
             "issues": self.issues.iter().map(|i| json!({"prop": i.prop, "rule": i.rule, "sig": i.sig, "msg": i.msg})).collect::<Vec<_>>(),
             "num": self.counters, "discarded": self.discarded, "harness": self.harness_error, "taint": self.taint, "sim_ns": self.sim_ns,
             "sample": self.sample,
@@ -322,6 +328,7 @@ pub fn check_main(scn: &dyn Scenario, prop_arg: &str, opts: &CheckOptions) -> i3
     let known = load_known_findings(&format!("{}/known_findings.json", opts.verif_dir));
     let mut counters: BTreeMap<String, u64> = BTreeMap::new();
     let mut distinct: BTreeSet<String> = BTreeSet::new();
+    let mut executions = 0u64;
     let mut log_hashes: BTreeSet<String> = BTreeSet::new();
     let mut samples: Vec<Value> = vec![];
     let mut discarded = 0u64;
@@ -335,6 +342,12 @@ pub fn check_main(scn: &dyn Scenario, prop_arg: &str, opts: &CheckOptions) -> i3
         if let Some(k) = v["key"].as_str() {
             distinct.insert(k.to_string());
         }
+        for k in v["keys"].as_array().map(|a| a.as_slice()).unwrap_or(&[]) {
+            if let Some(k) = k.as_str() {
+                distinct.insert(k.to_string());
+            }
+        }
+        executions += v["evals"].as_u64().unwrap_or(1);
         log_hashes.insert(v["log"].as_str().unwrap_or("").to_string());
         sim_ns += v["sim_ns"].as_u64().unwrap_or(0) as u128;
         if let Some(d) = v["discarded"].as_str() {
@@ -408,7 +421,8 @@ pub fn check_main(scn: &dyn Scenario, prop_arg: &str, opts: &CheckOptions) -> i3
 
     // ---- evidence
     let wall = (sys::real_now_ns() - t0) as f64 / 1e9;
-    let evaluations = records.len() as u64;
+    let evaluations = executions.max(records.len() as u64);
+    let cases_done = records.len() as u64;
     let meta = scn.meta();
     let mut by_rule: BTreeMap<String, u64> = BTreeMap::new();
     let mut examples: BTreeMap<String, Value> = BTreeMap::new();
@@ -432,6 +446,7 @@ pub fn check_main(scn: &dyn Scenario, prop_arg: &str, opts: &CheckOptions) -> i3
             "rule": meta.rule,
             "samples": samples,
             "planned_cases": total,
+            "cases_executed": cases_done,
             "discarded_cases": discarded,
             "discard_reasons": discard_reasons,
             "distinct_event_logs": log_hashes.len(),
